@@ -156,7 +156,8 @@ Proof.
   unfold attributes_init. cbn [ef_core exp_file]. rewrite shdr_get_offset.
   change (c_img C) with img. change (c_le C) with (i_le s).
   rewrite (struct_parse_at_exact _ [("format_version", KU (i_le s) 1)] [] img (sh_offset h)
-             [VZ 65] t [("format_version", HZ 65)] eq_refl).
+             [VZ 65] t [("format_version", HZ 65)] 1%nat eq_refl).
+  - reflexivity.
   - reflexivity.
   - reflexivity.
   - rewrite Ht. destruct (i_le s); reflexivity.
